@@ -73,8 +73,12 @@ def check_plan(plan, cwd, files=None, alt_root=None):
         s, e = m["start"], m["end"]
         text = m["content"].encode()
         if not (0 <= s <= e <= len(data)) or data[s:e] != text:
+            ln0 = data[:max(0, min(s, len(data)))].count(b"\n") + 1
+            l0 = data.rfind(b"\n", 0, max(0, min(s, len(data)))) + 1
+            l1 = data.find(b"\n", l0)
             probs.append({"clause": "text", "hunk": i,
-                          "detail": f"{m['file']}: recorded {m['content']!r} at {s}..{e}, file has {lossy(data[s:e])!r}"})
+                          "detail": f"{m['file']}: recorded {m['content']!r} at {s}..{e}, file has {lossy(data[s:e])!r} "
+                                    f"(line {ln0}: {lossy(data[l0:(len(data) if l1 < 0 else l1)])[:300]!r})"})
             # the remaining geometric fields are judged relative to where the text really is, if the
             # planner's own (line, byte_offset) identify it
             continue
